@@ -130,6 +130,14 @@ impl Prop for C17 {
     for (k, xs) in [vec![5u64, 3, 8], vec![1], vec![2, 2, 2, 2, 2], vec![9, 1], vec![4, 0, 6, 7]].iter().enumerate() {
       out.push(Case { id: format!("array;sum;k={}", k), cell: "array;sum".into(), input: json!({"mode": "array", "xs": xs}) });
     }
+    // machines invoked where their arguments are LOCAL names: from another machine's transition, and from a comprehension
+    // (a global of the same name holds another value; a wrong-kind element must still be rejected)
+    for (i, k0) in [0u64, 5, 9].iter().enumerate() {
+      out.push(Case { id: format!("nested;invoke;k={}", k0), cell: "nested;from-transition".into(), input: json!({"mode": "nested", "form": "transition", "k": k0}) });
+      out.push(Case { id: format!("nested;comprehension;k={}", k0), cell: "nested;from-comprehension".into(), input: json!({"mode": "nested", "form": "comprehension", "k": k0}) });
+      out.push(Case { id: format!("nested;set-comprehension;k={}", k0), cell: "nested;from-comprehension".into(), input: json!({"mode": "nested", "form": "set-comprehension", "k": k0}) });
+      if i == 0 { for hdr in ["kinds-in-header", "kinds-in-spec-only"] { out.push(Case { id: format!("nested;wrong-kind;{}", hdr), cell: "nested;wrong-kind-in-comprehension".into(), input: json!({"mode": "nested", "form": "wrong-kind", "hdr": hdr, "k": 0}) }); } }
+    }
     // array state patterns whose variables are bound again in a later step (prefix, suffix and both ends)
     for (k, (a, b)) in [(vec![5u64, 3, 8], vec![1u64, 9]), (vec![7], vec![7]), (vec![1, 5, 9], vec![2, 4, 12]), (vec![2, 2], vec![3, 1, 6, 6]), (vec![0, 4], vec![9, 9, 9])].iter().enumerate() {
       for shape in ["last", "first", "span"] { out.push(Case { id: format!("array;rebind;shape={};k={}", shape, k), cell: format!("array;rebind;{}", shape), input: json!({"mode": "array2", "a": a, "b": b, "shape": shape}) }); }
@@ -202,6 +210,28 @@ impl Prop for C17 {
         let want: u64 = xs.iter().sum();
         let nt = ev.iter().filter(|(l, _)| l == "transition").count();
         match &res { Ev::Ok(CVal::S(_, Sc::U(g))) if *g as u64 == want => if nt == xs.len() + 1 { Outcome::held() } else { Outcome::violated("visited-sequence-differs", format!("{}\n{} transitions traced, expected {}", src, nt, xs.len() + 1)) }, other => Outcome::violated("wrong-result", format!("{}\nreturned {} expected {}", src, other.show(), want)) }
+      }
+      "nested" => {
+        let k = case.input["k"].as_u64().unwrap();
+        let form = case.input["form"].as_str().unwrap();
+        let hdr_kinds = case.input.get("hdr").and_then(|h| h.as_str()).unwrap_or("kinds-in-header") == "kinds-in-header";
+        let inc = format!("#Inc(n<u64>) => <u64>\n  ├ :A(n<u64>)\n  └ :Done(n<u64>).\n\n#Inc({}) -> :A(n)\n  :A(n) -> :Done(n + 1u64)\n  :Done(n) => n.\n\n", if hdr_kinds { "n<u64>" } else { "n" });
+        let twice = "#Twice(k<u64>) => <u64>\n  ├ :Start(k<u64>)\n  └ :Finish(k<u64>).\n\n#Twice(k<u64>) -> :Start(k)\n  :Start(k) -> :Finish(#Inc(#Inc(k)))\n  :Finish(k) => k.\n\n";
+        let decoy = "k := 100u64\nx := 200u64\nn := 300u64\n";
+        let (src, want): (String, Option<Vec<u64>>) = match form {
+          "transition" => (format!("{}{}{}#Twice({}u64)", inc, twice, decoy, k), Some(vec![k + 2])),
+          "comprehension" => (format!("{}{}[ #Inc(x) | x <- [{}u64 {}u64 {}u64] ]", inc, decoy, k, k + 1, k + 7), Some(vec![k + 1, k + 2, k + 8])),
+          "set-comprehension" => (format!("{}{}{{ #Inc(x) | x <- {{{}u64, {}u64}} }}", inc, decoy, k, k + 3), Some(vec![k + 1, k + 4])),
+          _ => (format!("{}{}[ #Inc(x) | x <- [1u8 2u8 3u8] ]", inc, decoy), None),
+        };
+        let (res, _) = traced(&src, None);
+        match (&res, want) {
+          (Ev::Panic(p), _) => Outcome::violated("panic-escaped", p.clone()),
+          (Ev::Ok(v), Some(w)) => { let mut got: Vec<u64> = match v { CVal::S(_, Sc::U(x)) => vec![*x as u64], o => o.elems().iter().chain(if let CVal::Set(_, _, e) = o { e.iter() } else { [].iter() }).filter_map(|e| if let CVal::S(_, Sc::U(x)) = e { Some(*x as u64) } else { None }).collect() }; let mut w2 = w.clone(); if form == "set-comprehension" { got.sort(); w2.sort(); } if got == w2 { Outcome::held() } else { Outcome::violated("wrong-result", format!("{}\nreturned {} expected {:?}", src, v.show(), w)) } }
+          (other, Some(w)) => Outcome::violated("wrong-result", format!("{}\nreturned {} expected {:?}", src, other.show(), w)),
+          (Ev::Ok(v), None) => Outcome::violated("illformed-accepted", format!("{}\nelements of kind u8 were accepted for n<u64>: {}", src, v.show())),
+          (_, None) => Outcome::held().tag("rejected"),
+        }
       }
       "array2" => {
         let a: Vec<u64> = serde_json::from_value(case.input["a"].clone()).unwrap();
